@@ -272,7 +272,7 @@ func (P *Prog) retClass(r *ssa.Return, idx int) (string, *Term) {
 		return "unknown", t
 	case t.Op == "call" && errCtorRe.MatchString(t.Name):
 		return "nonnil", t
-	case t.Op == "invoke" && strings.HasSuffix(t.Name, ".Result"):
+	case t.Op == "invoke" && (strings.HasSuffix(t.Name, ".Result") || strings.HasSuffix(t.Name, ".TraceSDK") || strings.HasSuffix(t.Name, ".WithDefaultCodespace")):
 		return "nonnil", t
 	}
 	// tested non-nil on the way to this return?
